@@ -571,6 +571,11 @@ def split_multiple_persons_names(names):
             # If we're at the end of the string, then the \ is just a \.
             except StopIteration:
                 pass
+            # An escape is never part of an ' and ': it starts or continues a word.
+            if step == NEXT_WORD:
+                spans[-1].append(possible_end)
+                spans.append([pos - 1])
+            step = START_WHITESPACE
             pos += 1
             continue
 
